@@ -1,7 +1,8 @@
 // Engine C8 (property C08): clause arrangements. Complements engine W, whose data-driven sites always carry two WITH and
 // two SIDE_EFFECT clauses and return int by value: here the NUMBER and ORDER of clauses is real (0-3 WITH/LR_WITH and 0-3
 // SIDE_EFFECT/LR_SIDE_EFFECT per separately written expectation site, in several interleavings, with the RETURN/THROW
-// clause last or first) and the mocked functions return by value, by reference, by const reference, by pointer, or void.
+// clause last or first) and the mocked functions return by value (int, and the move-sensitive std::string and
+// std::vector<int>), by reference, by const reference, by pointer, or void.
 //
 // CLI: c8_main --prop C08 --out <json> --faildir <dir> [--replay <file>] [--quiet|--verbose]
 // rapidcheck is configured through RC_PARAMS only. No clock, no own random source.
@@ -31,7 +32,14 @@
 //     are allowed (the library evaluates them again for reports), a pass may be abandoned only by starting over at #0;
 //     the handler must show one complete all-true pass before its first side effect / return entry;
 //   * after every top-level call, for every live expectation: is_satisfied() == (count >= lo),
-//     is_saturated() == (count >= hi), where count includes calls whose side effect or THROW threw.
+//     is_saturated() == (count >= hi), where count includes calls whose side effect or THROW threw;
+//   * functions returning std::string / std::vector<int> by value whose RETURN expression is a non-const lvalue
+//     (LR_RETURN(g_str), LR_RETURN(g_map[_1]), LR_RETURN(g_holder.member), RETURN(_1) for a std::string& parameter, ...):
+//     the caller receives an equal value, the named object still has its value after the call (checked after every
+//     call, never repaired), and later calls through the same expectation return the same value again. Prvalue and
+//     captured-copy RETURNs are the controls.
+// After rapidcheck's own shrinking the failing case is minimised once more at case level (remove operations, replace the
+// site by one with fewer clauses, neutralise data); the replay file holds the minimal case.
 // Exit codes: 0 all agree, 1 disagreement (replay file written), 2 harness error.
 #include <rapidcheck.h>
 #include <fcntl.h>
@@ -39,6 +47,7 @@
 #include <climits>
 #include <exception>
 #include <functional>
+#include <map>
 #include <memory>
 #include <sstream>
 #include <stdexcept>
@@ -58,9 +67,12 @@ struct Mock {
   MAKE_MOCK1(cr, int const&(int));
   MAKE_MOCK1(p, int*(int*));
   MAKE_MOCK1(n, void(int));
+  MAKE_MOCK1(s, std::string(int));
+  MAKE_MOCK1(vec, std::vector<int>(int));
+  MAKE_MOCK1(sr, std::string(std::string&));
 };
-enum Fn { F_v, F_r, F_cr, F_p, F_n, NFN };
-static const char* const FN_NAME[NFN] = {"v", "r", "cr", "p", "n"};
+enum Fn { F_v, F_r, F_cr, F_p, F_n, F_s, F_vec, F_sr, NFN };
+static const char* const FN_NAME[NFN] = {"v", "r", "cr", "p", "n", "s", "vec", "sr"};
 
 constexpr int MAXSLOT = 4;       // live expectations per case
 constexpr int MAXDEPTH = 3;      // nesting depth of mock calls made from side effects (top level = 0)
@@ -73,6 +85,53 @@ static const Inst g_inst[MAXSLOT] = {{0}, {1}, {2}, {3}};
 static int g_obj = GLOBAL_VALUE; // the object named by LR_RETURN((g_obj)) / std::ref(g_obj)
 static int g_cell[MAXSLOT];      // per-slot objects returned by the logged reference / pointer terminals
 static int g_argcell[MAXDEPTH + 1];  // the caller's argument object of a call at depth d
+
+// Move-sensitive objects for the functions returning std::string / std::vector<int> BY VALUE from a RETURN expression
+// that is a non-const lvalue: the caller must get an equal value and the named object must keep its value (a library
+// that moved from the user's lvalue would hand out the right value once and leave the object empty). All strings are
+// longer than any small-string buffer, all vectors non-empty.
+struct Holder { std::string member; std::vector<int> v; };
+static std::string g_str;                       // LR_RETURN(g_str)
+static std::map<int, std::string> g_map;        // LR_RETURN(g_map[_1])
+static Holder g_holder;                         // LR_RETURN(g_holder.member), LR_RETURN(g_holder.v)
+static std::vector<int> g_vec;                  // LR_RETURN(g_vec)
+static std::map<int, std::vector<int>> g_vmap;  // LR_RETURN(g_vmap[_1])
+static std::string g_strarg[MAXDEPTH + 1];      // the caller's std::string argument of sr() at depth d
+static std::string pristine_str() { return "global string object named by LR_RETURN, long enough to own a heap buffer"; }
+static std::string pristine_map(int k) { return "map entry #" + std::to_string(k) + " named by LR_RETURN(g_map[_1]), also longer than the small buffer"; }
+static std::string pristine_member() { return "member of a global object named by LR_RETURN(g_holder.member), heap allocated"; }
+static std::vector<int> pristine_vec() { return {3, 1, 4, 1, 5, 9, 2, 6}; }
+static std::vector<int> pristine_hvec() { return {2, 7, 1, 8, 2, 8}; }
+static std::vector<int> pristine_vmap(int k) { return {k, k + 10, k + 20, k + 30}; }
+static std::string arg_string(int arg) { return std::to_string(arg) + ": caller's own std::string argument object, heap allocated as well"; }
+static std::string data_string(int retv) { return "string made from the expectation's data value " + std::to_string(retv) + " (prvalue or captured copy)"; }
+static std::vector<int> data_vec(int retv) { return {retv, retv + 1, retv + 2}; }
+static int str_code(const std::string& x) { return x.empty() || x[0] < '0' || x[0] > '9' ? 7 : x[0] - '0'; }  // 7: no WITH mask has that bit
+static std::string render(const std::vector<int>& v) {
+  std::string t = "{";
+  for (size_t i = 0; i < v.size(); ++i) t += (i ? "," : "") + std::to_string(v[i]);
+  return t + "}";
+}
+static void reset_objects() {
+  g_str = pristine_str();
+  g_map.clear(); g_vmap.clear();
+  for (int k = 0; k < NARG; ++k) { g_map[k] = pristine_map(k); g_vmap[k] = pristine_vmap(k); }
+  g_holder.member = pristine_member(); g_holder.v = pristine_hvec();
+  g_vec = pristine_vec();
+}
+// "" or what happened to an object a RETURN clause names
+static std::string damage_report() {
+  if (g_str != pristine_str()) return "g_str changed to \"" + g_str + "\"";
+  if (g_holder.member != pristine_member()) return "g_holder.member changed to \"" + g_holder.member + "\"";
+  if (g_holder.v != pristine_hvec()) return "g_holder.v changed to " + render(g_holder.v);
+  if (g_vec != pristine_vec()) return "g_vec changed to " + render(g_vec);
+  if (g_map.size() != static_cast<size_t>(NARG) || g_vmap.size() != static_cast<size_t>(NARG)) return "g_map / g_vmap changed size";
+  for (int k = 0; k < NARG; ++k) {
+    if (g_map[k] != pristine_map(k)) return "g_map[" + std::to_string(k) + "] changed to \"" + g_map[k] + "\"";
+    if (g_vmap[k] != pristine_vmap(k)) return "g_vmap[" + std::to_string(k) + "] changed to " + render(g_vmap[k]);
+  }
+  return "";
+}
 
 // ---------------------------------------------------------------------------------------------------------------
 // case data
@@ -91,13 +150,15 @@ using Case = std::vector<Op>;
 // ---------------------------------------------------------------------------------------------------------------
 // observations
 struct Ev { char k; int slot, idx, frame, arg, res; };  // k: W with, F side effect, T return/throw expression, R fatal report, N other report
-enum OutKind { O_NONE, O_VALUE, O_REF, O_PTR, O_VOID, O_EXC_TERM_STD, O_EXC_TERM_NONSTD, O_EXC_FX_STD, O_EXC_FX_NONSTD, O_FATAL, O_UNKNOWN_EXC };
+enum OutKind { O_NONE, O_VALUE, O_REF, O_PTR, O_VOID, O_STR, O_VEC, O_EXC_TERM_STD, O_EXC_TERM_NONSTD, O_EXC_FX_STD, O_EXC_FX_NONSTD, O_FATAL, O_UNKNOWN_EXC };
 struct Outcome {
   int kind = O_NONE; int slot = -1, idx = -1; long val = 0; const void* addr = nullptr;
+  std::string sval;  // O_STR: the string, O_VEC: the rendered vector
   bool same(const Outcome& o) const {
     if (kind != o.kind) return false;
     switch (kind) {
       case O_VALUE: return val == o.val;
+      case O_STR: case O_VEC: return sval == o.sval;
       case O_REF: case O_PTR: return addr == o.addr && val == o.val;
       case O_EXC_TERM_STD: case O_EXC_TERM_NONSTD: return slot == o.slot;
       case O_EXC_FX_STD: case O_EXC_FX_NONSTD: return slot == o.slot && idx == o.idx;
@@ -118,6 +179,8 @@ static std::string show(const Outcome& o) {
     case O_REF: return "reference to " + addr_name(o.addr) + " (value " + std::to_string(o.val) + ")";
     case O_PTR: return "pointer " + addr_name(o.addr) + " (value " + std::to_string(o.val) + ")";
     case O_VOID: return "void return";
+    case O_STR: return "string \"" + o.sval + "\"";
+    case O_VEC: return "vector " + o.sval;
     case O_EXC_TERM_STD: return "std::runtime_error from THROW of slot " + std::to_string(o.slot);
     case O_EXC_TERM_NONSTD: return "non-std exception from THROW of slot " + std::to_string(o.slot);
     case O_EXC_FX_STD: return "std::runtime_error from side effect #" + std::to_string(o.idx) + " of slot " + std::to_string(o.slot);
@@ -156,6 +219,7 @@ struct Real {
   Mock* mock = nullptr;
   bool in_call = false;
   int stray_reports = 0;
+  std::string first_damage;           // first time an object named by a RETURN clause was found changed after a call
 };
 static Real* RW = nullptr;
 
@@ -193,6 +257,10 @@ static int& ret_cell(const Inst& I) { log_term(I); return g_cell[I.slot]; }
 static const int& ret_ccell(const Inst& I) { log_term(I); return g_cell[I.slot]; }
 static int* ret_ptr(const Inst& I, int* x) { log_term(I); return x; }
 static int* ret_pcell(const Inst& I) { log_term(I); return &g_cell[I.slot]; }
+static std::string ret_str(const Inst& I) { log_term(I); return data_string(RW->data[I.slot]->retv); }    // prvalue
+static std::vector<int> ret_vec(const Inst& I) { log_term(I); return data_vec(RW->data[I.slot]->retv); }  // prvalue
+static std::string& ret_gstr(const Inst& I) { log_term(I); return g_str; }                                // non-const lvalue
+static std::string& ret_same_str(const Inst& I, std::string& x) { log_term(I); return x; }                // non-const lvalue
 static std::runtime_error mk_std(const Inst& I) { log_term(I); return std::runtime_error("c8 T " + std::to_string(I.slot)); }
 static NonStd mk_nonstd(const Inst& I) { log_term(I); return NonStd{'T', I.slot, 0}; }
 
@@ -216,6 +284,7 @@ static Outcome invoke(Mock& m, int fn, int arg, int depth, std::exception_ptr* e
   RW->t.outs.emplace_back();
   RW->stack.push_back(id);
   g_argcell[depth] = arg;
+  if (fn == F_sr) g_strarg[depth] = arg_string(arg);
   Outcome o;
   try {
     switch (fn) {
@@ -223,6 +292,9 @@ static Outcome invoke(Mock& m, int fn, int arg, int depth, std::exception_ptr* e
       case F_r: { int& x = m.r(g_argcell[depth]); o.kind = O_REF; o.addr = &x; o.val = known_address(&x) ? x : -1; break; }
       case F_cr: { const int& x = m.cr(arg); o.kind = O_REF; o.addr = &x; o.val = known_address(&x) ? x : -1; break; }
       case F_p: { int* x = m.p(&g_argcell[depth]); o.kind = O_PTR; o.addr = x; o.val = known_address(x) ? *x : -1; break; }
+      case F_s: { std::string x = m.s(arg); o.kind = O_STR; o.sval = x; break; }
+      case F_vec: { std::vector<int> x = m.vec(arg); o.kind = O_VEC; o.sval = render(x); break; }
+      case F_sr: { std::string x = m.sr(g_strarg[depth]); o.kind = O_STR; o.sval = x; break; }
       default: m.n(arg); o.kind = O_VOID; break;
     }
   } catch (const std::runtime_error& e) {
@@ -243,6 +315,11 @@ static Outcome invoke(Mock& m, int fn, int arg, int depth, std::exception_ptr* e
   }
   RW->stack.pop_back();
   RW->t.outs[static_cast<size_t>(id)] = o;
+  if (RW->first_damage.empty()) {  // not repaired: later calls through the same expectation must still see the value
+    std::string d = damage_report();
+    if (d.empty() && fn == F_sr && g_strarg[depth] != arg_string(arg)) d = "the caller's std::string argument changed to \"" + g_strarg[depth] + "\"";
+    if (!d.empty()) RW->first_damage = "after call " + std::to_string(id) + " (" + FN_NAME[fn] + "(" + std::to_string(arg) + ")): " + d;
+  }
   return o;
 }
 
@@ -250,7 +327,10 @@ static Outcome invoke(Mock& m, int fn, int arg, int depth, std::exception_ptr* e
 // expectation sites
 using ExpPtr = std::unique_ptr<trompeloeil::expectation>;
 using Maker = ExpPtr (*)(Mock&, const Inst&, std::size_t, std::size_t);
-enum ResKind { RK_VAL_DATA, RK_VAL_ARG, RK_REF_ARG, RK_REF_GLOBAL, RK_REF_CELL, RK_PTR_ARG, RK_PTR_GLOBAL, RK_PTR_CELL, RK_PTR_NULL, RK_VOID, RK_THROW_STD, RK_THROW_NONSTD };
+enum ResKind { RK_VAL_DATA, RK_VAL_ARG, RK_REF_ARG, RK_REF_GLOBAL, RK_REF_CELL, RK_PTR_ARG, RK_PTR_GLOBAL, RK_PTR_CELL, RK_PTR_NULL, RK_VOID, RK_THROW_STD, RK_THROW_NONSTD,
+               RK_STR_GLOBAL, RK_STR_MAP, RK_STR_MEMBER, RK_STR_COPY, RK_STR_DATA, RK_STR_ARG, RK_VEC_GLOBAL, RK_VEC_MAP, RK_VEC_MEMBER, RK_VEC_COPY, RK_VEC_DATA };
+static bool uses_retv(int rk) { return rk == RK_VAL_DATA || rk == RK_REF_CELL || rk == RK_PTR_CELL || rk == RK_STR_COPY || rk == RK_STR_DATA || rk == RK_VEC_COPY || rk == RK_VEC_DATA; }
+static bool names_lvalue_object(int rk) { return rk == RK_STR_GLOBAL || rk == RK_STR_MAP || rk == RK_STR_MEMBER || rk == RK_STR_ARG || rk == RK_VEC_GLOBAL || rk == RK_VEC_MAP || rk == RK_VEC_MEMBER; }
 struct TermInfo { int res; bool logged; };
 enum BndKind { B_ALLOW, B_REQ, B_RT, B_RTE, B_T2, B_AL1, B_AM2 };
 struct SiteDesc { const char* name; int fn, nW, nFX; TermInfo term; int bnd; unsigned long line; Maker mk; };
@@ -266,6 +346,9 @@ struct Reg { explicit Reg(const SiteDesc& d) { sites().push_back(d); } };
 #define C8_ARG_cr _1
 #define C8_ARG_p *_1
 #define C8_ARG_n _1
+#define C8_ARG_s _1
+#define C8_ARG_vec _1
+#define C8_ARG_sr str_code(_1)
 
 // WITH variants: <count><spellings>, p = plain, l = LR_. C8_Wk_<variant>(A) is the k-th clause or nothing.
 #define C8_WP(k, A) .WITH(with_eval(I, k, A))
@@ -388,6 +471,42 @@ struct Reg { explicit Reg(const SiteDesc& d) { sites().push_back(d); } };
 #define C8_TI_NTS {RK_THROW_STD, true}
 #define C8_TERM_NTN .LR_THROW(mk_nonstd(I))
 #define C8_TI_NTN {RK_THROW_NONSTD, true}
+// by-value std::string / std::vector<int> returns. Non-const lvalue expressions: SG SGL SM SH XG XM XH QA QAL QG;
+// controls: SC XC QC (copy captured by a plain RETURN, const inside the clause), SP XP (prvalue).
+#define C8_TERM_SG .LR_RETURN(g_str)
+#define C8_TI_SG {RK_STR_GLOBAL, false}
+#define C8_TERM_SGL .LR_RETURN(ret_gstr(I))
+#define C8_TI_SGL {RK_STR_GLOBAL, true}
+#define C8_TERM_SM .LR_RETURN(g_map[_1])
+#define C8_TI_SM {RK_STR_MAP, false}
+#define C8_TERM_SH .LR_RETURN(g_holder.member)
+#define C8_TI_SH {RK_STR_MEMBER, false}
+#define C8_TERM_SC .RETURN(copy)
+#define C8_TI_SC {RK_STR_COPY, false}
+#define C8_TERM_SP .RETURN(ret_str(I))
+#define C8_TI_SP {RK_STR_DATA, true}
+#define C8_TERM_STS .THROW(mk_std(I))
+#define C8_TI_STS {RK_THROW_STD, true}
+#define C8_TERM_XG .LR_RETURN(g_vec)
+#define C8_TI_XG {RK_VEC_GLOBAL, false}
+#define C8_TERM_XM .LR_RETURN(g_vmap[_1])
+#define C8_TI_XM {RK_VEC_MAP, false}
+#define C8_TERM_XH .LR_RETURN(g_holder.v)
+#define C8_TI_XH {RK_VEC_MEMBER, false}
+#define C8_TERM_XC .RETURN(copyv)
+#define C8_TI_XC {RK_VEC_COPY, false}
+#define C8_TERM_XP .LR_RETURN(ret_vec(I))
+#define C8_TI_XP {RK_VEC_DATA, true}
+#define C8_TERM_QA .RETURN(_1)
+#define C8_TI_QA {RK_STR_ARG, false}
+#define C8_TERM_QAL .RETURN(ret_same_str(I, _1))
+#define C8_TI_QAL {RK_STR_ARG, true}
+#define C8_TERM_QG .LR_RETURN(g_str)
+#define C8_TI_QG {RK_STR_GLOBAL, false}
+#define C8_TERM_QC .RETURN(copy)
+#define C8_TI_QC {RK_STR_COPY, false}
+#define C8_TERM_QTN .THROW(mk_nonstd(I))
+#define C8_TI_QTN {RK_THROW_NONSTD, true}
 
 // call-count forms
 #define C8_PRE_ALLOW(fn) NAMED_ALLOW_CALL(m, fn(_))
@@ -410,6 +529,8 @@ struct Reg { explicit Reg(const SiteDesc& d) { sites().push_back(d); } };
       #fn "." #w "." #f "." #shape "." #term "." #bnd, F_##fn, C8_NW_##w, C8_NF_##f, C8_TI_##term, B_##bnd, __LINE__,       \
       [](Mock& m, const Inst& I, std::size_t lo, std::size_t hi) -> ExpPtr {                                               \
         (void)I; (void)lo; (void)hi;                                                                                       \
+        std::string copy = data_string(RW->data[I.slot]->retv); std::vector<int> copyv = data_vec(RW->data[I.slot]->retv);  \
+        (void)copy; (void)copyv;                                                                                           \
         return C8_PRE_##bnd(fn) C8_SHAPE_##shape(C8_ARG_##fn, w, f, C8_TERM_##term) C8_POST_##bnd;                         \
       }}};
 
@@ -499,10 +620,49 @@ SITE(n, W3plp, F1p, FW, NTS, AL1)
 SITE(n, W3lpl, F2pl, IL, N0, ALLOW)
 SITE(n, W3lpl, F3lpl, LI, NTN, ALLOW)
 SITE(n, W2pl, F3plp, TWF, NTS, ALLOW)
+// by-value std::string / std::vector<int> returns (move-sensitive); a subset of the clause arrangements, every form with >= 1 side effect
+SITE(s, W0, F0, WF, SG, ALLOW)
+SITE(s, W1p, F1l, FW, SM, ALLOW)
+SITE(s, W2pl, F2lp, IL, SH, ALLOW)
+SITE(s, W0, F3plp, LI, SC, ALLOW)
+SITE(s, W3lpl, F1p, TWF, SP, RT)
+SITE(s, W1l, F2pl, FTW, SGL, AL1)
+SITE(s, W2lp, F0, WF, STS, REQ)
+SITE(s, W0, F2lp, TWF, SG, T2)
+SITE(s, W1p, F0, IL, SM, AM2)
+SITE(s, W3plp, F3lpl, WF, SH, RTE)
+SITE(vec, W0, F0, WF, XG, ALLOW)
+SITE(vec, W1l, F1p, IL, XM, ALLOW)
+SITE(vec, W2pl, F2pl, FW, XH, AL1)
+SITE(vec, W0, F3lpl, TWF, XC, ALLOW)
+SITE(vec, W3plp, F1l, LI, XP, RT)
+SITE(vec, W1p, F2lp, FTW, XG, T2)
+SITE(vec, W2lp, F0, WF, XM, AM2)
+SITE(sr, W0, F0, WF, QA, ALLOW)
+SITE(sr, W1p, F1p, FW, QAL, ALLOW)
+SITE(sr, W2lp, F2pl, IL, QG, ALLOW)
+SITE(sr, W0, F3plp, LI, QC, RT)
+SITE(sr, W3lpl, F1l, TWF, QA, AL1)
+SITE(sr, W1l, F2lp, FTW, QTN, REQ)
+SITE(sr, W2pl, F0, WF, QAL, T2)
+SITE(sr, W0, F1p, FTW, QA, AM2)
 
 static const SiteDesc* find_site(const std::string& name) {
   for (auto& s : sites()) if (name == s.name) return &s;
   return nullptr;
+}
+// data the site does not use is reset, so that equal behaviour means equal text (hashing, shrinking, readability)
+static void canonicalize(ExpData& e) {
+  const SiteDesc* d = find_site(e.site);
+  if (!d) return;
+  for (int k = 0; k < 3; ++k) {
+    if (k >= d->nW) e.wmask[k] = 63;
+    e.wmask[k] &= 63;
+    if (k >= d->nFX) e.fx[k] = FxAct{};
+    if (e.fx[k].kind != FX_CALL) { e.fx[k].fn = 0; e.fx[k].arg = 0; e.fx[k].swallow = 0; }
+  }
+  if (!uses_retv(d->term.res)) e.retv = 0;
+  if (d->bnd != B_RT && d->bnd != B_RTE) { e.lo = 1; e.hi = 1; }
 }
 static void bounds_of(const SiteDesc& d, const ExpData& x, long& lo, long& hi) {
   switch (d.bnd) {
@@ -561,7 +721,8 @@ static bool op_parse(const std::string& line, Op& o) {
 // ---------------------------------------------------------------------------------------------------------------
 // reference model: plain data, no library
 struct CaseFacts {
-  bool nontrivial = false, throwing_effect = false, nested = false, ref_return = false, ptr_return = false;
+  bool nontrivial = false, throwing_effect = false, nested = false, ref_return = false, ptr_return = false, lvalue_repeat = false;
+  uint64_t str_returns = 0, vec_returns = 0, lvalue_returns = 0, lvalue_returns_repeated = 0;
   uint64_t calls = 0, accepted = 0, rejected = 0, nested_calls = 0, recursive_same_fn = 0, swallowed = 0, handler_not_newest = 0, saturated_skipped = 0,
            term_throw_std = 0, term_throw_nonstd = 0, fx_throw = 0, value_returns = 0, ref_returns = 0, ptr_returns = 0, void_returns = 0, with_rejections = 0,
            depth_hist[MAXDEPTH + 1] = {}, hw[4] = {}, hf[4] = {}, wfail_at[3] = {}, propagated_through_side_effect = 0, budget_noops = 0, fatal_inside_side_effect = 0;
@@ -646,11 +807,23 @@ struct Model {
       case RK_PTR_CELL: o.kind = O_PTR; o.addr = &g_cell[h]; o.val = e.x->retv; break;
       case RK_PTR_NULL: o.kind = O_PTR; o.addr = nullptr; o.val = -1; break;
       case RK_VOID: o.kind = O_VOID; f.void_returns++; break;
+      case RK_STR_GLOBAL: o.kind = O_STR; o.sval = pristine_str(); break;
+      case RK_STR_MAP: o.kind = O_STR; o.sval = pristine_map(arg); break;
+      case RK_STR_MEMBER: o.kind = O_STR; o.sval = pristine_member(); break;
+      case RK_STR_COPY: case RK_STR_DATA: o.kind = O_STR; o.sval = data_string(e.x->retv); break;
+      case RK_STR_ARG: o.kind = O_STR; o.sval = arg_string(arg); break;
+      case RK_VEC_GLOBAL: o.kind = O_VEC; o.sval = render(pristine_vec()); break;
+      case RK_VEC_MAP: o.kind = O_VEC; o.sval = render(pristine_vmap(arg)); break;
+      case RK_VEC_MEMBER: o.kind = O_VEC; o.sval = render(pristine_hvec()); break;
+      case RK_VEC_COPY: case RK_VEC_DATA: o.kind = O_VEC; o.sval = render(data_vec(e.x->retv)); break;
       case RK_THROW_STD: o.kind = O_EXC_TERM_STD; o.slot = h; f.term_throw_std++; break;
       default: o.kind = O_EXC_TERM_NONSTD; o.slot = h; f.term_throw_nonstd++; break;
     }
     if (o.kind == O_REF) { f.ref_return = true; f.ref_returns++; }
     if (o.kind == O_PTR) { f.ptr_return = true; f.ptr_returns++; }
+    if (o.kind == O_STR) f.str_returns++;
+    if (o.kind == O_VEC) f.vec_returns++;
+    if (names_lvalue_object(d.term.res)) { f.lvalue_returns++; if (e.count >= 2) { f.lvalue_returns_repeated++; f.lvalue_repeat = true; } }
     return o;
   }
   void sweep() {
@@ -676,6 +849,7 @@ struct RealRun {
 
   void run(const Case& c) {
     RW = &w;
+    reset_objects();
     mock.reset(new Mock);
     w.mock = mock.get();
     for (auto& o : c) {
@@ -718,25 +892,22 @@ static std::string frames_text(const Trace& t) {
 }
 
 // compares the real trace with the model; returns "" or the description of the first disagreement
-static std::string compare(const Case& c, const Model& m, const Real& r) {
+static std::string compare_core(const Case& c, const Model& m, const Real& r) {
   const Trace &x = m.t, &y = r.t;
-  std::string ctx = "\nexpected clause log (F side effect, T return/throw expression, R fatal report): " + log_text(x, false) +
-                    "\nobserved clause log, WITH entries included: " + log_text(y, true) +
-                    "\nexpected calls: " + frames_text(x) + "\nobserved calls: " + frames_text(y);
   // 1. side effects / return expressions / reports, in order
   std::vector<Ev> yy;
   for (auto& e : y.ev) if (e.k != 'W') yy.push_back(e);
   for (size_t i = 0; i < std::max(x.ev.size(), yy.size()); ++i) {
-    if (i >= yy.size()) return "clause log ends early: expected " + show(x.ev[i]) + " as entry " + std::to_string(i) + ctx;
-    if (i >= x.ev.size()) return "unexpected clause log entry " + show(yy[i]) + " (an evaluation the handler does not own, or a repeated one)" + ctx;
+    if (i >= yy.size()) return "clause log ends early: expected " + show(x.ev[i]) + " as entry " + std::to_string(i);
+    if (i >= x.ev.size()) return "unexpected clause log entry " + show(yy[i]) + " (an evaluation the handler does not own, or a repeated one)";
     const Ev &a = x.ev[i], &b = yy[i];
-    if (a.k != b.k || a.slot != b.slot || a.idx != b.idx || a.frame != b.frame) return "clause log entry " + std::to_string(i) + ": expected " + show(a) + ", observed " + show(b) + ctx;
+    if (a.k != b.k || a.slot != b.slot || a.idx != b.idx || a.frame != b.frame) return "clause log entry " + std::to_string(i) + ": expected " + show(a) + ", observed " + show(b);
   }
   // 2. calls and their outcomes
-  if (x.frames.size() != y.frames.size()) return "number of mock calls made: expected " + std::to_string(x.frames.size()) + ", observed " + std::to_string(y.frames.size()) + ctx;
+  if (x.frames.size() != y.frames.size()) return "number of mock calls made: expected " + std::to_string(x.frames.size()) + ", observed " + std::to_string(y.frames.size());
   for (size_t i = 0; i < x.frames.size(); ++i) {
-    if (x.frames[i].fn != y.frames[i].fn || x.frames[i].arg != y.frames[i].arg || x.frames[i].depth != y.frames[i].depth) return "call " + std::to_string(i) + " differs in function/argument/depth" + ctx;
-    if (!x.outs[i].same(y.outs[i])) return "call " + std::to_string(i) + " (" + FN_NAME[x.frames[i].fn] + "(" + std::to_string(x.frames[i].arg) + ")): caller expected " + show(x.outs[i]) + ", received " + show(y.outs[i]) + ctx;
+    if (x.frames[i].fn != y.frames[i].fn || x.frames[i].arg != y.frames[i].arg || x.frames[i].depth != y.frames[i].depth) return "call " + std::to_string(i) + " differs in function/argument/depth";
+    if (!x.outs[i].same(y.outs[i])) return "call " + std::to_string(i) + " (" + FN_NAME[x.frames[i].fn] + "(" + std::to_string(x.frames[i].arg) + ")): caller expected " + show(x.outs[i]) + ", received " + show(y.outs[i]);
   }
   // 3. WITH passes per (call, expectation)
   struct PassState { int next = 0; bool full_pass_seen = false; };
@@ -744,23 +915,23 @@ static std::string compare(const Case& c, const Model& m, const Real& r) {
   std::vector<bool> handler_started(y.frames.size() * MAXSLOT, false);
   for (auto& e : y.ev) {
     if (e.k == 'R' || e.k == 'N') continue;
-    if (e.frame < 0 || e.slot < 0 || e.slot >= static_cast<int>(m.exps.size())) return "clause evaluated outside any call or for an expectation that does not exist yet: " + show(e) + ctx;
+    if (e.frame < 0 || e.slot < 0 || e.slot >= static_cast<int>(m.exps.size())) return "clause evaluated outside any call or for an expectation that does not exist yet: " + show(e);
     size_t key = static_cast<size_t>(e.frame) * MAXSLOT + static_cast<size_t>(e.slot);
     const SiteDesc& d = *m.exps[static_cast<size_t>(e.slot)].d;
     if (e.k != 'W') {
       if (!handler_started[key]) {
         handler_started[key] = true;
-        if (d.nW > 0 && !st[key].full_pass_seen) return "handler slot " + std::to_string(e.slot) + " runs " + show(e) + " without a complete passing evaluation of its WITH clauses in that call" + ctx;
+        if (d.nW > 0 && !st[key].full_pass_seen) return "handler slot " + std::to_string(e.slot) + " runs " + show(e) + " without a complete passing evaluation of its WITH clauses in that call";
       }
       continue;
     }
     const Frame& fr = y.frames[static_cast<size_t>(e.frame)];
-    if (d.fn != fr.fn) return "WITH of an expectation on another function evaluated: " + show(e) + ctx;
-    if (e.arg != fr.arg) return "WITH saw argument " + std::to_string(e.arg) + " in a call with argument " + std::to_string(fr.arg) + ": " + show(e) + ctx;
+    if (d.fn != fr.fn) return "WITH of an expectation on another function evaluated: " + show(e);
+    if (e.arg != fr.arg) return "WITH saw argument " + std::to_string(e.arg) + " in a call with argument " + std::to_string(fr.arg) + ": " + show(e);
     PassState& p = st[key];
     if (e.idx != p.next && e.idx != 0)
       return "WITH order: " + show(e) + " evaluated when WITH #" + std::to_string(p.next) + " of slot " + std::to_string(e.slot) +
-             " was due (declaration order, stop at the first that fails)" + ctx;
+             " was due (declaration order, stop at the first that fails)";
     if (!e.res) p.next = 0;
     else if (e.idx == d.nW - 1) { p.next = 0; p.full_pass_seen = true; }
     else p.next = e.idx + 1;
@@ -771,18 +942,33 @@ static std::string compare(const Case& c, const Model& m, const Real& r) {
       if (x.flags[i][s] != y.flags[i][s])
         return "after operation " + std::to_string(i) + " (" + op_text(c[i]) + ") slot " + std::to_string(s) + ": expected is_satisfied=" + std::to_string(x.flags[i][s] & 1) +
                " is_saturated=" + std::to_string((x.flags[i][s] >> 1) & 1) + " (count " + std::to_string(m.exps[s].count) + " at the end of the case, bounds " + std::to_string(m.exps[s].lo) + ".." +
-               (m.exps[s].hi == LONG_MAX ? std::string("inf") : std::to_string(m.exps[s].hi)) + "), observed is_satisfied=" + std::to_string(y.flags[i][s] & 1) + " is_saturated=" + std::to_string((y.flags[i][s] >> 1) & 1) + ctx;
-  if (r.stray_reports) return "fatal report outside any call" + ctx;
+               (m.exps[s].hi == LONG_MAX ? std::string("inf") : std::to_string(m.exps[s].hi)) + "), observed is_satisfied=" + std::to_string(y.flags[i][s] & 1) + " is_saturated=" + std::to_string((y.flags[i][s] >> 1) & 1);
+  if (r.stray_reports) return "fatal report outside any call";
+  // 5. objects named by RETURN clauses of by-value functions keep their value
+  if (!r.first_damage.empty()) return "an object named by a RETURN clause did not keep its value (the caller gets a COPY when the function returns by value): " + r.first_damage;
   return "";
+}
+static std::string compare(const Case& c, const Model& m, const Real& r) {
+  std::string why = compare_core(c, m, r);
+  if (why.empty()) return why;
+  return why + "\nexpected clause log (F side effect, T return/throw expression, R fatal report): " + log_text(m.t, false) +
+         "\nobserved clause log, WITH entries included: " + log_text(r.t, true) +
+         "\nexpected calls: " + frames_text(m.t) + "\nobserved calls: " + frames_text(r.t);
 }
 
 }  // namespace c8
 
 // ---------------------------------------------------------------------------------------------------------------
+// ASan's stack depot slows down steadily over long runs with the default 30-frame allocation contexts (rapidcheck's
+// deep, varying call stacks): 50 k cases took 68 s instead of 23 s. Options given in ASAN_OPTIONS still take precedence.
+extern "C" const char* __asan_default_options();
+extern "C" const char* __asan_default_options() { return "malloc_context_size=10"; }
+
 using namespace c8;
 static vc::Args A;
 static vc::Stats ST;
 static std::string g_last_fail, g_last_msg;
+static Case g_last_case;
 
 static bool valid_case(const Case& c) {
   int ne = 0;
@@ -817,6 +1003,11 @@ static void account(const Case& c, const CaseFacts& f) {
   ST.label("returns_reference", f.ref_returns);
   ST.label("returns_pointer", f.ptr_returns);
   ST.label("returns_void", f.void_returns);
+  ST.label("returns_string_by_value", f.str_returns);
+  ST.label("returns_vector_by_value", f.vec_returns);
+  ST.label("returns_by_value_from_nonconst_lvalue", f.lvalue_returns);
+  ST.label("returns_by_value_from_nonconst_lvalue_2nd_or_later_call_of_same_expectation", f.lvalue_returns_repeated);
+  if (f.lvalue_repeat) ST.label("cases_with_repeated_by_value_return_of_an_lvalue");
   ST.label("throws_std", f.term_throw_std);
   ST.label("throws_nonstd", f.term_throw_nonstd);
   if (f.nontrivial) {
@@ -847,7 +1038,7 @@ static void save_current(const Case& c) {
 }
 
 // runs one case in both worlds; "" or the disagreement
-static std::string run_case(const Case& c, bool save) {
+static std::string run_case(const Case& c, bool save, bool count = true) {
   if (save) save_current(c);
   Model m;
   m.run(c);
@@ -857,8 +1048,46 @@ static std::string run_case(const Case& c, bool save) {
     rr.run(c);
     why = compare(c, m, rr.w);
   }
-  account(c, m.f);
+  if (count) account(c, m.f);
   return why;
+}
+
+// Case-level minimisation after rapidcheck's own shrinking (which works on the sequence of random draws and cannot
+// drop an operation from the middle): greedy, any disagreement counts as "still failing". Not counted as evaluations.
+static Case minimize(Case c, std::string& why, const std::vector<std::vector<const SiteDesc*>>& by_fn) {
+  auto fails = [&](const Case& t) { std::string w = run_case(t, true, false); if (w.empty()) return false; why = w; return true; };
+  bool progress = true;
+  for (int round = 0; progress && round < 20; ++round) {
+    progress = false;
+    for (size_t i = 0; i < c.size();) {
+      Case t = c;
+      t.erase(t.begin() + static_cast<long>(i));
+      if (!t.empty() && fails(t)) { c = t; progress = true; } else ++i;
+    }
+    for (size_t i = 0; i < c.size(); ++i) {
+      auto attempt = [&](const std::function<void(Op&)>& edit) {
+        Case t = c;
+        edit(t[i]);
+        if (!t[i].is_call) canonicalize(t[i].e);
+        if (case_text(t) != case_text(c) && fails(t)) { c = t; progress = true; }
+      };
+      if (c[i].is_call) { attempt([](Op& o) { o.arg = 0; }); continue; }
+      const SiteDesc* d = find_site(c[i].e.site);
+      for (const SiteDesc* alt : by_fn[static_cast<size_t>(d->fn)]) {  // a site with fewer clauses on the same function
+        const SiteDesc* cur = find_site(c[i].e.site);
+        if (alt->nW + alt->nFX < cur->nW + cur->nFX && alt->nW <= cur->nW && alt->nFX <= cur->nFX) attempt([&](Op& o) { o.e.site = alt->name; });
+      }
+      for (int k = 0; k < 3; ++k) {
+        attempt([&](Op& o) { o.e.wmask[k] = 63; });
+        attempt([&](Op& o) { o.e.fx[k] = FxAct{}; });
+        attempt([&](Op& o) { o.e.fx[k].swallow = 0; });
+        attempt([&](Op& o) { o.e.fx[k].arg = 0; });
+      }
+      attempt([](Op& o) { o.e.retv = 0; });
+      attempt([](Op& o) { o.e.lo = 0; o.e.hi = -1; });
+    }
+  }
+  return c;
 }
 
 static int do_replay(const std::string& path, bool verbose) {
@@ -889,7 +1118,7 @@ static Case gen_case(const std::vector<std::vector<const SiteDesc*>>& by_fn) {
   std::vector<Op> early, late, calls;
   for (int i = 0; i < nE; ++i) {
     Op o;
-    int fn = pick(10) < 7 ? primary : pick(NFN);
+    int fn = (i == 0 || pick(10) < 7) ? primary : pick(NFN);  // the primary function always has an expectation
     const auto& lst = by_fn[static_cast<size_t>(fn)];
     o.e.site = lst[static_cast<size_t>(pick(static_cast<int>(lst.size())))]->name;
     for (int k = 0; k < 3; ++k) o.e.wmask[k] = pick(5) < 3 ? 63 : pick(64);
@@ -899,12 +1128,13 @@ static Case gen_case(const std::vector<std::vector<const SiteDesc*>>& by_fn) {
       a.kind = kk < 9 ? FX_NONE : kk < 17 ? FX_CALL : kk < 19 ? FX_THROW_STD : FX_THROW_NONSTD;
       a.fn = pick(2) == 0 ? fn : pick(NFN);
       a.arg = pick(NARG);
-      a.swallow = pick(3) == 0 ? 1 : 0;
+      a.swallow = pick(3) == 2 ? 1 : 0;
     }
     o.e.retv = pick(1000);
     o.e.lo = pick(3);
     int h = pick(4);
     o.e.hi = h == 3 ? -1 : std::max(1, o.e.lo + h);
+    canonicalize(o.e);
     (pick(5) == 4 ? late : early).push_back(o);
   }
   for (int i = 0; i < nC; ++i) {
@@ -934,9 +1164,9 @@ int main(int argc, char** argv) {
   }
   for (auto& l : by_fn) if (l.empty()) { fprintf(stderr, "a function without sites\n"); return 2; }
   trompeloeil::set_reporter(reporter);
-  ST.rule = "rapidcheck: 1-4 expectations drawn from " + std::to_string(sites().size()) +
-            " separately written sites (5 functions: int(int), int&(int&), int const&(int), int*(int*), void(int); 0-3 WITH/LR_WITH x 0-3 SIDE_EFFECT/LR_SIDE_EFFECT, 6 clause orders, "
-            "24 RETURN/LR_RETURN/THROW/LR_THROW forms, 7 call-count forms), 70% on one primary function, created before the first call (80%) or after it; per expectation 3 WITH masks over arguments 0..5 "
+  ST.rule = "rapidcheck: 1-4 expectations (the first always on the primary function) drawn from " + std::to_string(sites().size()) +
+            " separately written sites (8 functions: int(int), int&(int&), int const&(int), int*(int*), void(int), std::string(int), std::vector<int>(int), std::string(std::string&); "
+            "0-3 WITH/LR_WITH x 0-3 SIDE_EFFECT/LR_SIDE_EFFECT, 6 clause orders, 41 RETURN/LR_RETURN/THROW/LR_THROW forms incl. non-const lvalue expressions returned by value, 7 call-count forms), 70% on one primary function, created before the first call (80%) or after it; per expectation 3 WITH masks over arguments 0..5 "
             "(60% all-pass), 3 side-effect behaviours (45% none, 40% nested mock call on the own function or any other with its own argument, 1/3 of them swallowing the nested exception, 15% throw), return value, RT_TIMES bounds; "
             "1-4 top-level calls (80% primary function). Nesting depth <= 3, <= 24 calls per case. distinct = FNV-1a of the case text; non-trivial = some accepted call whose handler has >= 2 side effects or >= 2 WITH "
             "while another expectation on the same function is alive";
@@ -955,10 +1185,19 @@ int main(int argc, char** argv) {
       std::string path = A.faildir + "/c8_fail.C08." + std::to_string(getpid()) + ".txt";
       vc::write_file(path, replay_text(c, why));
       g_last_fail = path;
+      g_last_case = c;
       g_last_msg = why.substr(0, why.find('\n'));
       RC_FAIL(g_last_msg);
     }
   });
+  if (!ok && !g_last_fail.empty()) {
+    std::string why;
+    Case c = minimize(g_last_case, why, by_fn);
+    if (!why.empty()) {
+      vc::write_file(g_last_fail, replay_text(c, why));
+      g_last_msg = why.substr(0, why.find('\n'));
+    }
+  }
   if (!ok) ST.violations.push_back({g_last_fail, g_last_fail.empty() ? "rapidcheck reported a failure without an oracle disagreement (harness error?)" : "oracle disagreement: " + g_last_msg});
   ST.write(A.out);
   if (!ok && g_last_fail.empty()) return 2;
